@@ -427,6 +427,11 @@ def big_cases(quick: bool) -> Iterator[Dict[str, Any]]:
     # a file larger than the upload file's in-memory limit (1 MiB): rolled over to disk while it is written
     yield {"label": "file-over-1MiB", "parts": [["field", 20, []], ["file", MIB + 5000, [0, K64 - 3, MIB - 20, MIB - 2, MIB, MIB + 1, MIB + 4990]], ["field", 20, [3]]],
            "chunkings": [["size", K64], ["whole"], ["size", 4096], ["at", MIB + 100, MIB + 101]] + ([] if quick else [["size", 1000], ["at", MIB], ["size", 100_003]])}
+    # a body of a few KB that arrives a byte (two, three bytes) at a time: hundreds of data fragments per part - far more
+    # fragments than the default limit on the number of PARTS (324), which must count parts only
+    yield {"label": "dribbled-2k", "parts": [["field", 700, [0, 350]], ["file", 1500, [0, 10, 700, 1490]], ["field", 5, []]],
+           "chunkings": [["size", 1], ["size", 3], ["size", 2]] + ([] if quick else [["size", 5], ["size", 7]])}
+    yield {"label": "dribbled-field-5k", "parts": [["field", 5000, [100, 2500]], ["field", 400, []]], "chunkings": [["size", 1]] + ([] if quick else [["size", 3]])}
     if not quick:
         yield {"label": "two-files-over-1MiB", "parts": [["file", MIB + 1, [MIB - 10]], ["file", 2 * MIB, [5, MIB, 2 * MIB - 12]]],
                "chunkings": [["size", K64], ["size", 300_000], ["whole"]]}
